@@ -55,8 +55,11 @@ Dry-runs on a scratch copy (VERIF_REPO=/var/tmp/mC16, ./check C16 quick), all co
  M9  objects.go  pyDict.Keys(): sort dropped                   RED  rendered dict order / d.keys() differ from python
  M10 objects.go  pyInt <=  ->  <                               RED  concrete program (g5 false vs true)
  M7  interpreter.go rename local nobj -> rhs in interpretOps   GREEN (harmless)
-After the three repairs in /repo (fix: commits), the re-introducing mutations:
- R1  objects.go  floorMod(i, o) -> i % o                       see MUTATIONS-AFTER-FIX below
- R2  objects.go  floorDiv(i, o) -> float64 detour
- R3  builtins.go sorted/reversed: clone -> l[:]
+After the three repairs in /repo (fix: commits ec296ec, 04757e8, 95d3a82), the re-introducing mutations (scratch copies, ./check C16 quick):
+ R1  objects.go  floorMod(i, o) -> i % o                       RED  VIOLATION violation-int-mod-go-sign.json (concrete program, class no longer known);
+                                                                   facts intOps Modulo |-> "%", 4 theorems no longer check; model follows: 0 disagreements
+ R2  objects.go  floorDiv(i, o) -> float64 detour              RED  VIOLATION violation-floordiv-float64-detour.json (big-int scenario); 5 theorems fail;
+                                                                   0 disagreements: the exact float64 model (f64RoundPos) agrees with the real float code on all cases
+ R3  builtins.go sorted/reversed: clone -> l[:]                RED  VIOLATION violation-sorted-reversed-in-place.json; 4 theorems fail; 0 disagreements
+                                                                   (C17 on the same copy: RED through C17_toplevel_partial / facts, no concrete package set found at quick)
 """
